@@ -416,12 +416,12 @@ def small_coop(ctx):
     return [
         ('1 1 5 0 P i2,1 i4,2 i6,3 T f2 T r6', 20000),                  # find migrates 2, remove takes 6 out of the same old bucket
         ('1 1 5 0 P i2,1 i4,2 i6,3 T f2 T f6', 20000),                  # two migrations out of the same old bucket: the last one unlinks the table
-        ('1 1 5 0 P i2,1 i6,3 T r2 T r6 T f4', 400 if q else 8000),
-        ('1 0 4 0 P i2,1 T i4,2 T i6,3', 400 if q else 8000),          # two inserts both ask for a resize: only one may happen per table
-        ('1 0 5 0 P i2,1 i4,2 T f2 T f4 T i6,3', 300 if q else 6000),    # unlink of two old tables while a resize is pending
-        ('1 1 5 0 P u3,1 T u3,2 T u3,3 r3', 400 if q else 8000),       # find-or-insert against find-or-insert and remove
-        ('1 1 5 0 P i2,1 i6,2 u3,3 T u3,4 T r3 T f2', 300 if q else 6000),
-        ('1 1 4 1 P i8,1 i10,2 i12,3 T f8 r10 T r12 f10', 300 if q else 6000),   # same 64-bit hash: key_equal decides, chain never splits
+        ('1 1 5 0 P i2,1 i6,3 T r2 T r6 T f4', 400 if q else 6000),
+        ('1 0 4 0 P i2,1 T i4,2 T i6,3', 400 if q else 6000),          # two inserts both ask for a resize: only one may happen per table
+        ('1 0 5 0 P i2,1 i4,2 T f2 T f4 T i6,3', 300 if q else 5000),    # unlink of two old tables while a resize is pending
+        ('1 1 5 0 P u3,1 T u3,2 T u3,3 r3', 400 if q else 6000),       # find-or-insert against find-or-insert and remove
+        ('1 1 5 0 P i2,1 i6,2 u3,3 T u3,4 T r3 T f2', 300 if q else 5000),
+        ('1 1 4 1 P i8,1 i10,2 i12,3 T f8 r10 T r12 f10', 300 if q else 5000),   # same 64-bit hash: key_equal decides, chain never splits
     ]
 
 
@@ -693,7 +693,7 @@ def run(ctx, res, lines=None):
             pct.append('case %d coop %s | pct %d %d' % (k, c, rng.next() % 1000000007, rng.range(2, 4))); k += 1
     batches += [pct[i:i + 120] for i in range(0, len(pct), 120)]
     rnd = []
-    for _ in range((400 if q else 6000) if lines is None else 0):
+    for _ in range((400 if q else 10000) if lines is None else 0):
         pol = 'rng %d' % (rng.next() % 1000000007) if rng.chance(1, 2) else 'pct %d %d' % (rng.next() % 1000000007, rng.range(2, 4))
         rnd.append('case %d coop %s | %s' % (k, gen_coop(rng, q), pol)); k += 1
     ch = 100 if q else 500
